@@ -9,16 +9,30 @@ from monitors import universe as U
 
 
 def classify(expr, doc, got, want):
-    # C02-deep-equality-bool-number: comparison of two containers that hold bool vs number look-alikes
-    txt = repr(expr)
-    if "'cmp'" in txt and isinstance(got, list) and isinstance(want, list) and len(got) > len(want):
-        extra = [g for g in got if not any(U._same(g, w) for w in want)]
-        if extra and all(isinstance(x, (list, dict)) for x in extra) and any(op in txt for op in ("'=='", "'<='", "'>='")):
-            return "C02-deep-equality-bool-number"
-    if "'!='" in txt and isinstance(got, list) and isinstance(want, list) and len(got) < len(want):
-        missing = [w for w in want if not any(U._same(g, w) for g in got)]
-        if missing and all(isinstance(x, (list, dict)) for x in missing):
-            return "C02-deep-equality-bool-number"
+    """C02-deep-equality-bool-number: the library's equality of two arrays / objects is Python ==, which
+    identifies true/false with 1/0 below the top level.  A disagreement is that finding exactly when the
+    reference evaluator gives the library's answer once its equality of two containers is switched to
+    Python == (and nothing else is changed) - whatever the shape of the expression around it."""
+    import specs.rfc9535_filter as F
+
+    if not isinstance(got, list):
+        return None
+    orig = F.json_equal
+
+    def python_eq_on_containers(a, b):
+        if isinstance(a, (list, dict)) and isinstance(b, (list, dict)):
+            return a == b
+        return orig(a, b)
+
+    F.json_equal = python_eq_on_containers
+    try:
+        alt = FL.reference_filter(expr, doc)
+    except Exception:  # noqa: BLE001
+        return None
+    finally:
+        F.json_equal = orig
+    if U.same_values(got, alt) and not U.same_values(alt, want):
+        return "C02-deep-equality-bool-number"
     return None
 
 
